@@ -1,5 +1,6 @@
 import OFCore.RuleSys
 import OFCore.Lemmas.Engine
+import OFCore.Lemmas.EngineRanked
 /-!
 # Elaborated systems are slot-coherent
 
@@ -165,6 +166,516 @@ theorem elabSys_slotCoherent (d : Decl) (armed : List Nat) (hwf : EternalWF d) :
     · exact den_eternal_indep d armed hwf n v vv hv hu p p'
     · have hck' : storageKey d v p = storageKey d v p' := hck
       simp only [storageKey, hv, hu, if_false] at hck'
+      rw [hck']
+
+
+/-! ## the extended language (`xelabSys`) -/
+
+/-- what `divideTarget` returns, spelled out: the variable exists, is dated and not shorter than
+    the requested period, which is one unit long; the node is the variable at its
+    definition-period-long period around the start of the requested one; the denominator is the
+    (positive) size of that period in units of the requested one -/
+theorem divideTarget_spec (d : Decl) (w : Nat) (q : Period) (k : Node Period) (m : Nat)
+    (h : divideTarget d w q = .ok (k, m)) :
+    ∃ wv c n, d.vars[w]? = some wv ∧ ¬ (unitWeight wv.unit < unitWeight q.unit) ∧ q.size = 1 ∧
+      wv.unit ≠ .eternity ∧ q.unit ≠ .eternity ∧
+      divPeriod wv.unit q = .ok c ∧ divDenominator q.unit c = .ok n ∧ 0 < n ∧ m = n.toNat ∧
+      servedPeriod wv.unit c = .ok k.2 ∧ k.1 = w := by
+  unfold divideTarget at h
+  cases hw : d.vars[w]? with
+  | none => rw [hw] at h; cases h
+  | some wv =>
+    rw [hw] at h
+    simp only at h
+    split at h
+    · cases h
+    · rename_i h1
+      split at h
+      · cases h
+      · rename_i h2
+        split at h
+        · cases h
+        · rename_i h3
+          cases hc : divPeriod wv.unit q with
+          | error e => rw [hc] at h; cases h
+          | ok c =>
+            rw [hc] at h
+            simp only at h
+            cases hn : divDenominator q.unit c with
+            | error e => rw [hn] at h; cases h
+            | ok n =>
+              rw [hn] at h
+              simp only at h
+              split at h
+              · cases h
+              · rename_i h4
+                cases hs : servedPeriod wv.unit c with
+                | error e => rw [hs] at h; cases h
+                | ok c' =>
+                  rw [hs] at h
+                  simp only [Except.ok.injEq, Prod.mk.injEq] at h
+                  obtain ⟨rfl, rfl⟩ := h
+                  refine ⟨wv, c, n, rfl, ?_, ?_, h2, ?_, hc, hn, by omega, rfl, hs, rfl⟩
+                  · intro hlt; exact h1 (Or.inl hlt)
+                  · have : ¬ q.size ≠ 1 := fun hne => h3 (Or.inr hne)
+                    omega
+                  · intro hq; exact h3 (Or.inl hq)
+
+theorem xf1_div (d : Decl) (m : Nat) (hm : 0 < m) (v : Val) :
+    xf1 d (XDIV + m) v = v.map (fun a => a / (m : Int)) := by
+  unfold xf1
+  rw [if_pos (by omega)]
+  have : XDIV + m - XDIV = m := by omega
+  rw [this]
+
+theorem xf1_low (d : Decl) (o : Nat) (ho : o ≤ XDIV) (v : Val) : xf1 d o v = f1 d o v := by
+  unfold xf1
+  rw [if_neg (by omega)]
+
+/-- one step of the scan for the latest dated value -/
+theorem latestStep_spec (o : Int) (best : Option (Int × Int)) (f : Int × Int) (seen : List (Int × Int))
+    (h1 : ∀ b, best = some b → b ∈ seen ∧ b.1 ≤ o ∧ ∀ f' ∈ seen, f'.1 ≤ o → f'.1 ≤ b.1)
+    (h2 : best = none → ∀ f' ∈ seen, ¬ f'.1 ≤ o) :
+    (∀ b, latestStep o best f = some b → b ∈ seen ++ [f] ∧ b.1 ≤ o ∧ ∀ f' ∈ seen ++ [f], f'.1 ≤ o → f'.1 ≤ b.1) ∧
+    (latestStep o best f = none → ∀ f' ∈ seen ++ [f], ¬ f'.1 ≤ o) := by
+  unfold latestStep
+  by_cases hf : f.1 ≤ o
+  · rw [if_pos hf]
+    cases best with
+    | none =>
+      simp only
+      refine ⟨?_, by intro h; cases h⟩
+      intro b hb; injection hb with hb; subst hb
+      refine ⟨by simp, hf, ?_⟩
+      intro f' hf' hle
+      rcases List.mem_append.1 hf' with hm | hm
+      · exact absurd hle (h2 rfl f' hm)
+      · simp at hm; subst hm; exact Int.le_refl _
+    | some b0 =>
+      obtain ⟨hm0, hle0, hmax0⟩ := h1 b0 rfl
+      simp only
+      by_cases hb0 : b0.1 ≤ f.1
+      · rw [if_pos hb0]
+        refine ⟨?_, by intro h; cases h⟩
+        intro b hb; injection hb with hb; subst hb
+        refine ⟨by simp, hf, ?_⟩
+        intro f' hf' hle
+        rcases List.mem_append.1 hf' with hm | hm
+        · exact Int.le_trans (hmax0 f' hm hle) hb0
+        · simp at hm; subst hm; exact Int.le_refl _
+      · rw [if_neg hb0]
+        refine ⟨?_, by intro h; cases h⟩
+        intro b hb; injection hb with hb; subst hb
+        refine ⟨by simp [hm0], hle0, ?_⟩
+        intro f' hf' hle
+        rcases List.mem_append.1 hf' with hm | hm
+        · exact hmax0 f' hm hle
+        · simp at hm; subst hm; omega
+  · rw [if_neg hf]
+    constructor
+    · intro b hb
+      obtain ⟨hm0, hle0, hmax0⟩ := h1 b hb
+      refine ⟨by simp [hm0], hle0, ?_⟩
+      intro f' hf' hle
+      rcases List.mem_append.1 hf' with hm | hm
+      · exact hmax0 f' hm hle
+      · simp at hm; subst hm; exact absurd hle hf
+    · intro hn f' hf'
+      rcases List.mem_append.1 hf' with hm | hm
+      · exact h2 hn f' hm
+      · simp at hm; subst hm; exact hf
+
+theorem latest_fold_spec (o : Int) : ∀ (l : List (Int × Int)) (best : Option (Int × Int)) (seen : List (Int × Int)),
+    (∀ b, best = some b → b ∈ seen ∧ b.1 ≤ o ∧ ∀ f' ∈ seen, f'.1 ≤ o → f'.1 ≤ b.1) →
+    (best = none → ∀ f' ∈ seen, ¬ f'.1 ≤ o) →
+    (∀ b, l.foldl (latestStep o) best = some b → b ∈ seen ++ l ∧ b.1 ≤ o ∧ ∀ f' ∈ seen ++ l, f'.1 ≤ o → f'.1 ≤ b.1) ∧
+    (l.foldl (latestStep o) best = none → ∀ f' ∈ seen ++ l, ¬ f'.1 ≤ o) := by
+  intro l
+  induction l with
+  | nil => intro best seen h1 h2; simp only [List.foldl_nil, List.append_nil]; exact ⟨h1, h2⟩
+  | cons f l ih =>
+    intro best seen h1 h2
+    obtain ⟨k1, k2⟩ := latestStep_spec o best f seen h1 h2
+    have := ih (latestStep o best f) (seen ++ [f]) k1 k2
+    simpa [List.append_assoc] using this
+
+/-- `paramAt`: the value whose start is the greatest one on or before the instant; none exactly
+    when every value starts later -/
+theorem paramAt_spec (tbl : List (Int × Int)) (o : Int) :
+    (∀ k, paramAt tbl o = some k → ∃ s, (s, k) ∈ tbl ∧ s ≤ o ∧ ∀ f ∈ tbl, f.1 ≤ o → f.1 ≤ s) ∧
+    (paramAt tbl o = none → ∀ f ∈ tbl, ¬ f.1 ≤ o) := by
+  have := latest_fold_spec o tbl none [] (by intro b hb; cases hb) (by intro _ f hf; cases hf)
+  simp only [List.nil_append] at this
+  obtain ⟨h1, h2⟩ := this
+  unfold paramAt
+  constructor
+  · intro k hk
+    rw [Option.map_eq_some_iff] at hk
+    obtain ⟨b, hb, rfl⟩ := hk
+    obtain ⟨hm, hle, hmax⟩ := h1 b hb
+    exact ⟨b.1, hm, hle, hmax⟩
+  · intro hn
+    rw [Option.map_eq_none_iff] at hn
+    exact h2 hn
+
+/-- expressions of the plain language: neither reserved form occurs -/
+def Plain : DExpr → Prop
+  | .const _ => True
+  | .var _ _ _ => True
+  | .op1 o a => o ≠ OP_DIVIDE ∧ o ≠ OP_PARAM ∧ Plain a
+  | .op2 _ a b => Plain a ∧ Plain b
+  | .fail _ a => Plain a
+
+theorem specialOp_none (x : XDecl) (ent : Nat) (p : Period) (o : Nat) (a : DExpr)
+    (h1 : o ≠ OP_DIVIDE) (h2 : o ≠ OP_PARAM) : specialOp x ent p o a = none := by
+  cases a <;> simp [specialOp, h1, h2]
+
+/-- the extension is conservative: a plain expression elaborates exactly as before -/
+theorem xelabExpr_plain (x : XDecl) (p : Period) : ∀ (e : DExpr) (ent : Nat), Plain e →
+    xelabExpr x ent p e = elabExpr x.toDecl ent p e := by
+  intro e
+  induction e with
+  | const k => intro ent _; rfl
+  | var w pt add => intro ent _; rfl
+  | op1 o a ih =>
+    intro ent h
+    simp only [xelabExpr, elabExpr, specialOp_none x ent p o a h.1 h.2.1]
+    rw [ih _ h.2.2]
+  | op2 o a b iha ihb =>
+    intro ent h
+    simp only [xelabExpr, elabExpr]
+    rw [iha _ h.1, ihb _ h.2]
+  | fail id a ih =>
+    intro ent h
+    simp only [xelabExpr, elabExpr]
+    rw [ih _ h]
+
+/-! ### declarative acyclicity implies node-level acyclicity -/
+
+/-- the variables a declarative expression reads -/
+def dreads : DExpr → List Nat
+  | .const _ => []
+  | .var w _ _ => [w]
+  | .op1 o a =>
+    match a with
+    | .var w _ _ => if o = OP_PARAM then [] else [w]
+    | .const _ => []
+    | .op1 _ _ => dreads a
+    | .op2 _ _ _ => dreads a
+    | .fail _ _ => dreads a
+  | .op2 _ a b => dreads a ++ dreads b
+  | .fail _ a => dreads a
+
+theorem refs_foldl_add (w : Nat) (node : Period → Expr Period) (hnode : ∀ s, ∀ k ∈ refs (node s), k.1 = w) :
+    ∀ (ss : List Period) (acc : Expr Period), (∀ k ∈ refs acc, k.1 = w) →
+      ∀ k ∈ refs (ss.foldl (fun acc s => Expr.op2 0 acc (node s)) acc), k.1 = w := by
+  intro ss
+  induction ss with
+  | nil => intro acc h; exact h
+  | cons s ss ih =>
+    intro acc h
+    simp only [List.foldl_cons]
+    apply ih
+    intro k hk
+    simp only [refs, List.mem_append] at hk
+    rcases hk with hk | hk
+    · exact h k hk
+    · exact hnode s k hk
+
+theorem refs_servedNode (u : DUnit) (w : Nat) (s : Period) :
+    ∀ k ∈ refs (match servedPeriod u s with | .ok s' => Expr.ref w s' | .error _ => Expr.bad), k.1 = w := by
+  intro k hk
+  cases h : servedPeriod u s with
+  | error e => rw [h] at hk; simp [refs] at hk
+  | ok s' => rw [h] at hk; simp only [refs, List.mem_singleton] at hk; rw [hk]
+
+/-- every node a read elaborates to is a node of the variable read -/
+theorem refs_elabRead (d : Decl) (w : Nat) (q : Except String Period) (add : Bool) :
+    ∀ k ∈ refs (elabRead d w q add), k.1 = w := by
+  unfold elabRead
+  cases hw : d.vars[w]? with
+  | none => intro k hk; simp [refs] at hk
+  | some wv =>
+    cases q with
+    | error e => intro k hk; simp [refs] at hk
+    | ok q =>
+      simp only
+      by_cases hadd : add = true
+      · simp only [hadd, if_true]
+        split
+        · intro k hk; simp [refs] at hk
+        split
+        · intro k hk; simp [refs] at hk
+        split
+        · intro k hk; simp [refs] at hk
+        split
+        · intro k hk; simp [refs] at hk
+        · intro k hk; simp [refs] at hk
+        · rename_i s ss _
+          exact refs_foldl_add w _ (fun s => refs_servedNode wv.unit w s) ss _ (refs_servedNode wv.unit w s)
+      · simp only [hadd]
+        exact refs_servedNode wv.unit w q
+
+theorem refs_elabDivide (d : Decl) (w : Nat) (q : Except String Period) :
+    ∀ k ∈ refs (elabDivide d w q), k.1 = w := by
+  unfold elabDivide
+  cases q with
+  | error e => intro k hk; simp [refs] at hk
+  | ok q =>
+    simp only
+    cases h : divideTarget d w q with
+    | error e => intro k hk; simp [refs] at hk
+    | ok kn =>
+      obtain ⟨k0, m⟩ := kn
+      obtain ⟨_, _, _, _, _, _, _, _, _, _, _, _, _, hk0⟩ := divideTarget_spec d w q k0 m h
+      intro k hk
+      simp only [refs, List.mem_singleton] at hk
+      rw [hk]; exact hk0
+
+theorem refs_elabParam (x : XDecl) (ent i : Nat) (q : Except String Period) : refs (elabParam x ent i q) = [] := by
+  unfold elabParam
+  split <;> rfl
+
+/-- the nodes an elaborated expression reads are nodes of the variables the expression reads -/
+theorem refs_xelabExpr (x : XDecl) (p : Period) : ∀ (e : DExpr) (ent : Nat),
+    ∀ k ∈ refs (xelabExpr x ent p e), k.1 ∈ dreads e := by
+  intro e
+  induction e with
+  | const c => intro ent k hk; simp [xelabExpr, refs] at hk
+  | var w pt add =>
+    intro ent k hk
+    simp only [xelabExpr] at hk
+    cases hw : x.vars[w]? with
+    | none => rw [hw] at hk; simp [refs] at hk
+    | some wv =>
+      rw [hw] at hk
+      simp only at hk
+      split at hk
+      · simp only [dreads, List.mem_singleton]; exact refs_elabRead _ w _ add k hk
+      · simp [refs] at hk
+  | op1 o a ih =>
+    intro ent k hk
+    simp only [xelabExpr] at hk
+    cases a with
+    | var w pt add =>
+      simp only [specialOp] at hk
+      by_cases h1 : o = OP_DIVIDE
+      · simp only [h1, if_true] at hk
+        have hne : ¬ OP_DIVIDE = OP_PARAM := by decide
+        simp only [dreads, h1, hne, if_false, List.mem_singleton]
+        cases hw : x.vars[w]? with
+        | none => rw [hw] at hk; simp [refs] at hk
+        | some wv =>
+          rw [hw] at hk
+          simp only at hk
+          split at hk
+          · exact refs_elabDivide _ w _ k hk
+          · simp [refs] at hk
+      · simp only [h1, if_false] at hk
+        by_cases h2 : o = OP_PARAM
+        · simp only [h2, if_true, refs_elabParam] at hk
+          cases hk
+        · simp only [h2, if_false, refs] at hk
+          have := ih _ k hk
+          simpa [dreads, h2] using this
+    | const c =>
+      simp only [specialOp, refs] at hk
+      exact absurd (ih _ k hk) (by simp [dreads])
+    | op1 o' b => simp only [specialOp, refs] at hk; simpa [dreads] using ih _ k hk
+    | op2 o' b c => simp only [specialOp, refs] at hk; simpa [dreads] using ih _ k hk
+    | fail id b => simp only [specialOp, refs] at hk; simpa [dreads] using ih _ k hk
+  | op2 o a b iha ihb =>
+    intro ent k hk
+    simp only [xelabExpr, refs, List.mem_append] at hk
+    simp only [dreads, List.mem_append]
+    rcases hk with hk | hk
+    · exact Or.inl (iha _ k hk)
+    · exact Or.inr (ihb _ k hk)
+  | fail id a ih =>
+    intro ent k hk
+    simp only [xelabExpr, refs] at hk
+    simpa [dreads] using ih _ k hk
+
+/-- a declarative system whose variables are ranked: every formula of a variable reads only
+    variables of strictly lower rank (the rule system is a DAG of variables) -/
+def DeclRanked (x : XDecl) (rk : Nat → Nat) : Prop :=
+  ∀ (v : Nat) (vv : Var), x.vars[v]? = some vv → ∀ f ∈ vv.formulas, ∀ w ∈ dreads f.2, rk w < rk v
+
+theorem pick_fold_mem (o : Int) : ∀ (fs : List (Int × DExpr)) (best : Option (Int × DExpr)) (b : Int × DExpr),
+    fs.foldl (pickStep o) best = some b → b ∈ fs ∨ best = some b := by
+  intro fs
+  induction fs with
+  | nil => intro best b h; right; simpa using h
+  | cons f fs ihf =>
+    intro best b h
+    simp only [List.foldl_cons] at h
+    rcases ihf _ b h with h1 | h1
+    · left; exact List.mem_cons_of_mem _ h1
+    · unfold pickStep at h1
+      split at h1
+      · cases best with
+        | none => simp only at h1; injection h1 with h1; left; rw [← h1]; exact List.mem_cons_self
+        | some b0 =>
+          simp only at h1
+          split at h1
+          · injection h1 with h1; left; rw [← h1]; exact List.mem_cons_self
+          · right; exact h1
+      · right; exact h1
+
+theorem formulaInForce_mem (vv : Var) (o : Int) (e : DExpr) (h : formulaInForce vv o = some e) :
+    ∃ s, (s, e) ∈ vv.formulas := by
+  have key : pickFormula vv o = some e → ∃ s, (s, e) ∈ vv.formulas := by
+    intro hp
+    simp only [pickFormula] at hp
+    rw [Option.map_eq_some_iff] at hp
+    obtain ⟨b, hb, rfl⟩ := hp
+    rcases pick_fold_mem o vv.formulas none b hb with h1 | h1
+    · exact ⟨b.1, h1⟩
+    · cases h1
+  unfold formulaInForce at h
+  split at h
+  · split at h
+    · cases h
+    · exact key h
+  · exact key h
+
+/-- declarative acyclicity gives the hypothesis `VarRanked` of the engine theorems -/
+theorem xelabSys_varRanked (x : XDecl) (armed : List Nat) (rk : Nat → Nat) (h : DeclRanked x rk) :
+    VarRanked (xelabSys x armed) rk := by
+  intro v p e hf k hk
+  simp only [xelabSys] at hf
+  cases hv : x.vars[v]? with
+  | none => rw [hv] at hf; cases hf
+  | some vv =>
+    rw [hv] at hf
+    simp only [Option.map_eq_some_iff] at hf
+    obtain ⟨de, hde, rfl⟩ := hf
+    obtain ⟨s, hs⟩ := formulaInForce_mem vv _ de hde
+    exact h v vv hv (s, de) hs k.1 (refs_xelabExpr x p de vv.entity k hk)
+
+/-- a system without eternal variable stores every value under its own period -/
+theorem xelabSys_slotCoherent_dated (x : XDecl) (armed : List Nat)
+    (h : ∀ (v : Nat) (vv : Var), x.vars[v]? = some vv → vv.unit ≠ DUnit.eternity) : SlotCoherent (xelabSys x armed) := by
+  apply slotCoherent_of_id
+  intro v p
+  exact storageKey_dated x.toDecl v p (h v)
+
+
+/-! ### eternal variables in the extended language -/
+
+/-- reads that do not depend on the formula's own period, extended language: a DIVIDE read or a
+    parameter read must name a fixed period -/
+def XPeriodFree (d : Decl) : DExpr → Prop
+  | .const _ => True
+  | .var w pt add =>
+    (∃ q, pt = .fixed q) ∨
+    (pt = .same ∧ add = false ∧ ∃ wv, d.vars[w]? = some wv ∧ wv.unit = .eternity)
+  | .op1 o a => XPeriodFree d a ∧
+      ((o = OP_DIVIDE ∨ o = OP_PARAM) → ∀ w pt add, a = .var w pt add → ∃ q, pt = .fixed q)
+  | .op2 _ a b => XPeriodFree d a ∧ XPeriodFree d b
+  | .fail _ a => XPeriodFree d a
+
+def XEternalWF (x : XDecl) : Prop :=
+  ∀ (v : Nat) (vv : Var), x.vars[v]? = some vv → vv.unit = DUnit.eternity →
+    vv.endOrd = none ∧ ∀ f ∈ vv.formulas, f.1 ≤ 1 ∧ XPeriodFree x.toDecl f.2
+
+theorem specialOp_indep (x : XDecl) (ent : Nat) (p p' : Period) (o : Nat) (a : DExpr)
+    (h : (o = OP_DIVIDE ∨ o = OP_PARAM) → ∀ w pt add, a = .var w pt add → ∃ q, pt = .fixed q) :
+    specialOp x ent p o a = specialOp x ent p' o a := by
+  cases a with
+  | var w pt add =>
+    by_cases ho : o = OP_DIVIDE ∨ o = OP_PARAM
+    · obtain ⟨q, rfl⟩ := h ho w pt add rfl
+      simp only [specialOp, applyPT]
+    · have h1 : o ≠ OP_DIVIDE := fun e => ho (Or.inl e)
+      have h2 : o ≠ OP_PARAM := fun e => ho (Or.inr e)
+      simp only [specialOp, h1, h2, if_false]
+  | const k => rfl
+  | op1 o' b => rfl
+  | op2 o' b c => rfl
+  | fail id b => rfl
+
+theorem xelab_formula (x : XDecl) (armed : List Nat) (v : Nat) (vv : Var) (hv : x.vars[v]? = some vv) (p : Period) :
+    (xelabSys x armed).formula v p = (formulaInForce vv (startOrdOf p)).map (xelabExpr x vv.entity p) := by
+  simp [xelabSys, hv]
+
+/-- the meaning of an eternal variable of the extended language does not depend on the requested period -/
+theorem xden_eternal_indep (x : XDecl) (armed : List Nat) (hwf : XEternalWF x) :
+    ∀ (n : Nat) (v : Nat) (vv : Var), x.vars[v]? = some vv → vv.unit = .eternity →
+      ∀ p p', den (xelabSys x armed) n v p = den (xelabSys x armed) n v p'
+  | 0, _, _, _, _, _, _ => by simp [den]
+  | n+1, v, vv, hv, hu, p, p' => by
+    obtain ⟨hend, hfs⟩ := hwf v vv hv hu
+    have ih := xden_eternal_indep x armed hwf n
+    have hexp : ∀ (e : DExpr) (ent : Nat), XPeriodFree x.toDecl e →
+        denE (xelabSys x armed) n (xelabExpr x ent p e) = denE (xelabSys x armed) n (xelabExpr x ent p' e) := by
+      intro e
+      induction e with
+      | const k => intro ent _; rfl
+      | var w pt add =>
+        intro ent hpf
+        simp only [xelabExpr]
+        cases hw : x.vars[w]? with
+        | none => rfl
+        | some wv =>
+          simp only
+          split
+          · rcases hpf with ⟨q, rfl⟩ | ⟨rfl, rfl, wv', hw', hwu⟩
+            · rfl
+            · have hw2 : x.toDecl.vars[w]? = some wv := hw
+              rw [hw2] at hw'; injection hw' with hw'; subst hw'
+              simp only [applyPT, elabRead, hw2, servedPeriod, hwu, if_true, Bool.false_eq_true, if_false, denE]
+              exact ih w wv hw hwu p p'
+          · rfl
+      | op1 o a iha =>
+        intro ent hpf
+        simp only [xelabExpr]
+        rw [specialOp_indep x ent p p' o a hpf.2]
+        cases specialOp x ent p' o a with
+        | some e => rfl
+        | none =>
+          simp only [denE]
+          rw [iha _ hpf.1]
+      | op2 o a b iha ihb =>
+        intro ent hpf
+        simp only [xelabExpr, denE]
+        rw [iha _ hpf.1, ihb _ hpf.2]
+      | fail id a iha =>
+        intro ent hpf
+        simp only [xelabExpr, denE]
+        rw [iha _ hpf]
+    have hin : (xelabSys x armed).input v p = (xelabSys x armed).input v p' := by
+      have hv2 : x.toDecl.vars[v]? = some vv := hv
+      show (elabSys x.toDecl armed).input v p = (elabSys x.toDecl armed).input v p'
+      simp only [elabSys, hv2, hend, inputLookup, storageKey_eternal x.toDecl v vv hv2 hu]
+    have hform : formulaInForce vv (startOrdOf p) = formulaInForce vv (startOrdOf p') :=
+      formulaInForce_indep vv hend (fun f hf => (hfs f hf).1) p p'
+    unfold den
+    rw [hin, xelab_formula x armed v vv hv p, xelab_formula x armed v vv hv p', hform]
+    split
+    · rfl
+    · cases hff : formulaInForce vv (startOrdOf p') with
+      | none => rfl
+      | some e =>
+        simp only [Option.map_some]
+        obtain ⟨s, hs⟩ := formulaInForce_mem vv _ e hff
+        rw [hexp e vv.entity (hfs (s, e) hs).2]
+
+/-- every well-formed extended system is slot-coherent -/
+theorem xelabSys_slotCoherent (x : XDecl) (armed : List Nat) (hwf : XEternalWF x) :
+    SlotCoherent (xelabSys x armed) := by
+  intro v p p' hck n
+  have hck' : storageKey x.toDecl v p = storageKey x.toDecl v p' := hck
+  cases hv : x.vars[v]? with
+  | none =>
+    have hv2 : x.toDecl.vars[v]? = none := hv
+    have : storageKey x.toDecl v p = p ∧ storageKey x.toDecl v p' = p' := by simp [storageKey, hv2]
+    rw [this.1, this.2] at hck'; rw [hck']
+  | some vv =>
+    have hv2 : x.toDecl.vars[v]? = some vv := hv
+    by_cases hu : vv.unit = .eternity
+    · exact xden_eternal_indep x armed hwf n v vv hv hu p p'
+    · simp only [storageKey, hv2, hu, if_false] at hck'
       rw [hck']
 
 end OFCore.RuleSys
